@@ -5,7 +5,7 @@ import numpy as np
 from .. import core, gen
 
 ID = 'C03'
-LEVEL = 'other'
+LEVEL = 'proof'
 RULE = ('corpus; exhaustive scope: all 65536 boolean 4x4 images x {4,8}-neighbourhoods, all boolean images of the '
         'smaller shapes up to 4x4, all 512 3x3 elements x all boolean images up to 3x3 (thorough in full, quick a '
         'seeded slice, as block cases); random 1-3 D arrays x bool/int/float dtypes (both signs, -0.0) x 7 layouts x '
